@@ -23,6 +23,7 @@ ID = "C12"
 LEVEL = "exploration"
 ASSUMPTIONS = [
     "type trees: base types {uint256,uint8,int128,address,bool,bytes4,bytes32,bytes,string}; T[], T[1], T[2], tuples up to arity 2, nesting up to 3; signatures with 1-3 parameters (thorough: additionally every pair over the 48 types of nesting <= 1)",
+    "parameter names: a0, a1, ... (components c0, ...) and, separately, every parameter and component unnamed (the empty string solc emits)",
     "length configurations: --default-array-lengths / --default-bytes-lengths / --array-lengths over {0}, {1}, {0,2}/{0,33}, defaults {0,1,2}/{0,65,1024}, unordered lists {2,0}/{65,32}, a per-name override",
     "narrow types are modelled by halmos as full-word symbols (documented over-approximation): a leaf is required to be a full 256-bit symbol, not a range-restricted one",
     "when the product of candidate lists exceeds 512 the combinations are restricted to all-min, all-max and every single deviation from all-max (reported as capped_signatures)",
@@ -93,6 +94,8 @@ CONFIGS = [
     {},  # defaults: 0,1,2 / 0,65,1024
     {"default_array_lengths": "2,0", "default_bytes_lengths": "65,32"},
     {"default_array_lengths": "1", "default_bytes_lengths": "32", "array_lengths": "a0={1,3},a1=2"},
+    {"_names": "unnamed"},  # `function f(uint256, bytes memory)`: solc emits "" for every unnamed parameter / component
+    {"_names": "unnamed", "default_array_lengths": "2,0", "default_bytes_lengths": "65,32"},
 ]
 
 # ---------------------------------------------------------------------------
@@ -289,11 +292,20 @@ def check_decoded(dec, sig_types):
 # ---------------------------------------------------------------------------
 
 
+def strip_names(items):
+    for it in items:
+        it["name"] = ""
+        strip_names(it.get("components", []))
+
+
 def build_calldata(types, config):
     from halmos.calldata import FunctionInfo, mk_calldata
 
     sig = f"f({','.join(types)})"
     abi = {sig: e2e.abi_of(sig)}
+    config = dict(config)
+    if config.pop("_names", None) == "unnamed":
+        strip_names(abi[sig]["inputs"])
     info = FunctionInfo("C", "f", sig, f"{e2e.sel(sig):08x}")
     args = e2e.mk_config(config)
     cd, dyn = mk_calldata(abi, info, args)
